@@ -308,11 +308,10 @@ func TestC07Index(t *testing.T) {
 			-(1 << 35), -(1 << 35) - 1, 1<<42 - 1, 1 << 42, c07DateLo + 1, c07DateHi - 1,
 			time.Date(2240, 1, 1, 0, 0, 0, 0, time.UTC).UnixNano(), time.Date(2250, 6, 1, 0, 0, 0, 1, time.UTC).UnixNano(),
 			time.Date(1700, 1, 1, 0, 0, 0, 0, time.UTC).UnixNano(), time.Date(1690, 6, 1, 0, 0, 0, 0, time.UTC).UnixNano()}
-		if _, open := KnownOpen("C07", c07KnownExtremeDates); !open {
-			dpool = append(dpool, math.MaxInt64-1, math.MinInt64+1, c07DateLo, c07DateHi)
-		} else {
-			ev.Exclude(c07KnownExtremeDates)
-		}
+		// dates beyond the int64 images of -Inf/+Inf (the last and first ~52 days of the
+		// representable range): legal for documents and for explicit endpoints
+		dpool = append(dpool, math.MaxInt64-1, math.MinInt64+1, c07DateLo, c07DateHi, c07DateHi+1e15, c07DateLo-1e15, c07DateHi+3e15)
+		_, extremeKnown := KnownOpen("C07", c07KnownExtremeDates)
 		ndocs := rapid.IntRange(2, 8).Draw(t, "ndocs")
 		type doc struct {
 			n []float64
@@ -380,6 +379,22 @@ func TestC07Index(t *testing.T) {
 				if q.DMin == nil || rapid.IntRange(0, 4).Draw(t, "openmax") != 0 {
 					v := rapid.SampledFrom(dpool).Draw(t, "dmax")
 					q.DMax = &v
+				}
+				if extremeKnown {
+					// the open finding: an open end stands for -Inf/+Inf, whose image lies inside the
+					// date range, so values beyond it are missed - excluded by its exact shape
+					// ("beyond" includes the image itself: the substituted bound is exclusive)
+					beyondHi, beyondLo := q.DMin != nil && *q.DMin >= c07DateHi, q.DMax != nil && *q.DMax <= c07DateLo
+					for _, d := range docs {
+						for _, v := range d.d {
+							beyondHi = beyondHi || v >= c07DateHi
+							beyondLo = beyondLo || v <= c07DateLo
+						}
+					}
+					if q.DMax == nil && beyondHi || q.DMin == nil && beyondLo {
+						ev.Exclude(c07KnownExtremeDates)
+						continue
+					}
 				}
 				for id, d := range docs {
 					for _, v := range d.d {
